@@ -69,6 +69,8 @@ func errClassMsg(s string) string {
 		return "multiProp"
 	case strings.HasPrefix(s, "bad id value"):
 		return "badId"
+	case strings.HasPrefix(s, "id '") && strings.HasSuffix(s, "cannot start with a '?'"):
+		return "badIdVar"
 	case strings.HasPrefix(s, "bad TTL"), strings.HasPrefix(s, "time: invalid duration"), strings.HasPrefix(s, "time: unknown unit"), strings.HasPrefix(s, "time: missing unit"):
 		return "badTTL"
 	case strings.HasPrefix(s, "Expected a string or number for expires"), strings.HasPrefix(s, "parsing time"), strings.HasPrefix(s, "bad 'expires'"):
